@@ -36,6 +36,12 @@ SUITES = {
     "meta_zst":    ("meta",   "zst",   [],                    "debug",   (6, 30),   (0, 0)),
     "tomb_plain":  ("tomb",   "plain", [],                    "debug",   (8, 64),   (0, 0)),
     "tomb_heap":   ("tomb",   "heap",  [],                    "release", (8, 64),   (0, 0)),
+    # profile differential: recorded with the debug build, re-executed with the release build
+    "diff_plain":  ("diff",   "plain", ["--limits"],          "debug",   (12, 120), (200, 200)),
+    "diff_heap":   ("diff",   "heap",  ["--limits"],          "debug",   (12, 120), (200, 200)),
+    "diff_two":    ("diff",   "heap",  ["--two"],             "debug",   (6, 60),   (200, 200)),
+    "diff_set":    ("diff",   "heap",  ["--set", "--two"],    "debug",   (6, 60),   (200, 200)),
+    "diff_zst":    ("diff",   "zst",   [],                    "debug",   (6, 30),   (100, 100)),
     "defects":     ("scripts", None,   [],                    "both",    (1, 1),    (0, 0)),
 }
 
@@ -48,6 +54,12 @@ DEFECT_SCRIPTS = [
 # ---------------------------------------------------------------------------------------------
 # Model-checking configs: name -> (module, cfg, workers, timeout_s) per tier
 # ---------------------------------------------------------------------------------------------
+# spec modules each model-checking config depends on (cache key)
+MC_DEPS = {
+    "Small": ["Hashbrown.tla", "Griddle.tla", "GriddleCount.tla", "MCGriddle.tla"],
+    "CountR8": ["Hashbrown.tla", "GriddleCount.tla", "MCCount.tla"],
+}
+
 MC = {
     "Small": {
         "quick": ("MCGriddle", "MCSmall", 6, 900),
@@ -81,6 +93,8 @@ PROPS = {
     "C15": dict(suites=["par_heap", "par_two", "par_set"], mc=[]),
     "C16": dict(suites=["serde_map", "serde_set", "serde_zst"], mc=[]),
 }
+
+PROPS["C17"] = dict(suites=["diff_plain", "diff_heap", "diff_two", "diff_set", "diff_zst", "limits_dbg", "limits_rel", "defects"], mc=["CountR8"])
 
 LEVEL = {p: "model_checking" for p in PROPS}
 LEVEL["C07"] = "fault_enumeration"
